@@ -45,7 +45,7 @@ OPT_OF = {
     "MIRROR_PAD": "MirrorPadOptions", "GATHER": "GatherOptions", "L2_NORMALIZATION": "L2NormOptions", "LOG": None,
     "CAST": "CastOptions", "NEG": "NegOptions", "BATCH_MATMUL": "BatchMatMulOptions",
     # control flow: the options hold subgraph indices (see Net.subnets)
-    "WHILE": "WhileOptions", "IF": "IfOptions", "CALL_ONCE": "CallOnceOptions",
+    "WHILE": "WhileOptions", "IF": "IfOptions", "CALL_ONCE": "CallOnceOptions", "CALL": "CallOptions",
     "LESS": "LessOptions", "GREATER": "GreaterOptions", "EQUAL": "EqualOptions",
     "VAR_HANDLE": "VarHandleOptions", "ASSIGN_VARIABLE": "AssignVariableOptions", "READ_VARIABLE": "ReadVariableOptions",
 }
@@ -219,13 +219,15 @@ class Net:
             iv = b.CreateNumpyVector(np.array([t.idx for t in net.inputs], dtype=np.int32))
             ov = b.CreateNumpyVector(np.array([t.idx for t in net.outputs], dtype=np.int32))
             opv = vec(SubGraph.SubGraphStartOperatorsVector, op_offs)
-            sgname = b.CreateString(net.sgname if net is not self else "main")
+            anon = net is not self and getattr(net, "anon", False)       # the schema's name field is optional
+            sgname = None if anon else b.CreateString(net.sgname if net is not self else "main")
             SubGraph.SubGraphStart(b)
             SubGraph.SubGraphAddTensors(b, tv)
             SubGraph.SubGraphAddInputs(b, iv)
             SubGraph.SubGraphAddOutputs(b, ov)
             SubGraph.SubGraphAddOperators(b, opv)
-            SubGraph.SubGraphAddName(b, sgname)
+            if sgname is not None:
+                SubGraph.SubGraphAddName(b, sgname)
             sg_offs.append(SubGraph.SubGraphEnd(b))
         sgv = vec(Model.ModelStartSubgraphsVector, sg_offs)
         cv = vec(Model.ModelStartOperatorCodesVector, code_offs)
@@ -562,7 +564,7 @@ def fam_conv_chain(rng, big=False):
 
 SINGLE_KINDS = ["conv", "dw", "fc", "maxpool", "avgpool", "add", "sub", "mul", "logistic", "tanh", "lrelu", "hswish",
                 "softmax", "mean", "resize_bilinear", "resize_nearest", "quantize", "tconv", "reshape", "pad", "pad_bc",
-                "slice", "concat", "minimum", "maximum", "relu", "abs", "add_bcast", "mul_scalar", "transpose", "transpose_c", "conv_head"]
+                "slice", "concat", "minimum", "maximum", "relu", "abs", "add_bcast", "mul_scalar", "transpose", "transpose_c", "conv_head", "prelu"]
 
 
 def fam_single_op(rng, kind=None):
@@ -624,6 +626,23 @@ def fam_single_op(rng, kind=None):
             y = unary(net, rng, "LEAKY_RELU", x, dict(Alpha=float(np.float32(rng.choice([0.01, 0.1, 0.2, 0.5, 1.5, -0.3])))))
         elif kind == "hswish":
             y = unary(net, rng, "HARD_SWISH", x)
+        elif kind == "prelu":
+            # per-channel slopes: all below 1, all at or above 1, straddling 1 (the three rewrites differ), or uniform
+            c_ = x.shape[-1]
+            a_sc = _rs(rng, 0.004, 0.02)
+            a_zp = rng.choice([0, 0, -20, 17]) if x.dtype == "int8" else 128 if x.dtype == "uint8" else 0
+            lo_, hi_ = (-128, 127) if x.dtype == "int8" else (0, 255) if x.dtype == "uint8" else (-32767, 32767)
+            mode_ = rng.choice(["below1", "above1", "straddle", "straddle", "uniform", "negative"])
+            rr = np.random.RandomState(rng.getrandbits(31))
+            real = {"below1": rr.uniform(-0.3, 0.95, c_), "above1": rr.uniform(1.0, 2.0, c_), "straddle": rr.uniform(-0.3, 2.0, c_),
+                    "uniform": np.full(c_, rng.choice([0.1, 0.25, 1.5, 0.0])), "negative": rr.uniform(-1.5, -0.1, c_)}[mode_]
+            if x.dtype == "int16":
+                a_sc = a_sc / 256
+            codes = np.clip(np.round(real / a_sc) + a_zp, lo_, hi_).astype(np.int64)
+            ashape = rng.choice([[c_], [1, 1, c_]]) if len(x.shape) == 4 else [c_]
+            alpha = net.tensor(ashape, x.dtype, a_sc, a_zp, codes.reshape(ashape), name="prelu_alpha")
+            y = net.tensor(list(x.shape), x.dtype, _rs(rng, 0.01, 0.3) if rng.random() < 0.7 else x.scale, _zp(rng, x.dtype))
+            net.op("PRELU", [x, alpha], [y], {})
         elif kind == "relu":
             y = unary(net, rng, rng.choice(["RELU", "RELU6"]), x)
         elif kind == "abs":
@@ -1070,6 +1089,31 @@ def fam_narrowing_chain(rng):
     return net
 
 
+def fam_one_channel_tail(rng):
+    """a layer with many weights (fully connected or convolution) followed, possibly after other operators, by a layer
+    with ONE output channel: on a two-core accelerator the second core has no weight stream for it, and the first layer's
+    weights may live in another region than the buffered weights of the second"""
+    net = Net("one_channel_tail")
+    dt = rng.choice(["int8", "int8", "uint8"])
+    if rng.random() < 0.6:
+        n_in = rng.choice([64, 128, 256])
+        hh, ww, cc = rng.choice([(2, 2, 16), (4, 4, 8), (1, 4, 16), (2, 2, 32), (4, 4, 4)])
+        x = _inp(net, rng, [1, n_in], dt)
+        t = fully_connected(net, rng, x, hh * ww * cc)
+        t = reshape(net, rng, t, [1, hh, ww, cc])
+    else:
+        x = _inp(net, rng, [1, rng.choice([4, 8]), rng.choice([4, 8]), rng.choice([16, 32])], dt)
+        t = conv2d(net, rng, x, rng.choice([32, 64, 96]), (3, 3), (1, 1), (1, 1), "SAME", "NONE")
+    if rng.random() < 0.3:
+        t = pool(net, rng, t, "MAX_POOL_2D", (1, 1), (1, 1), "VALID")
+    k = rng.choice([1, 1, 3])
+    t = conv2d(net, rng, t, 1, (k, k), (1, 1), (1, 1), "SAME", rng.choice(["NONE", "RELU"]))
+    if rng.random() < 0.3:
+        t = conv2d(net, rng, t, rng.choice([1, 8]), (1, 1), (1, 1), (1, 1), "SAME", "NONE")
+    net.output(t)
+    return net
+
+
 def fam_deep_chain(rng, kind=None):
     """a long sequential chain of cheap operators (recursive graph traversals: about 3 Python frames per operator);
     kind = number of operators"""
@@ -1185,7 +1229,8 @@ def fam_multi_custom(rng):
 
 
 # kinds drawn at random; "if_npu" (NPU-supported operators inside the IF branches) killed the compiler before 37530b3
-MULTI_KINDS = ["while", "while", "while_fm", "if", "call_once", "while_call_once", "if_call_once", "while2", "if_same", "if_npu"]
+MULTI_KINDS = ["while", "while", "while_fm", "if", "call_once", "while_call_once", "if_call_once", "while2", "if_same", "if_npu",
+               "while_unnamed", "if_npu_unnamed", "orphan", "call"]
 
 
 def _ms_custom(net, rng, x, code):
@@ -1230,6 +1275,9 @@ def fam_multi_subgraph(rng, kind=None):
     operands in every subgraph; subgraph indices inside the control-flow options; model-wide buffer table (C11)"""
     kind = kind or rng.choice(MULTI_KINDS)
     net = Net("multi_subgraph_" + kind)
+    unnamed = kind.endswith("_unnamed")             # the further subgraphs carry no name (all the same, absent, name)
+    if unnamed:
+        kind = kind[:-len("_unnamed")]
     dt = rng.choice(["int8", "int8", "uint8"])
     h, w, c = rng.randrange(2, 12), rng.randrange(2, 12), rng.choice([4, 8, 16])
     shape = [1, h, w, c]
@@ -1240,6 +1288,7 @@ def fam_multi_subgraph(rng, kind=None):
     def sub(name):
         s = Net(name)
         s.sgname = name
+        s.anon = unnamed
         subs.append(s)
         return s
 
@@ -1289,7 +1338,7 @@ def fam_multi_subgraph(rng, kind=None):
         if trivial:
             y = _ms_custom(s, rng, v, "VendorElse")
         else:
-            y = _ms_segment(s, rng, v, name.title().replace("_", ""), cpu, sc, zp, npu=(kind == "if_npu"))
+            y = _ms_segment(s, rng, v, name.title().replace("_", ""), cpu, sc, zp, npu=(kind in ("if_npu", "orphan", "call")))
         s.output(y)
         return s
 
@@ -1342,7 +1391,15 @@ def fam_multi_subgraph(rng, kind=None):
         y = fm(net, "if_out")
         ctl(net, "IF", [p, t], [y], ThenSubgraphIndex=th, ElseSubgraphIndex=el)
         t = y
-    if t is not before and rng.random() < 0.5:
+    elif kind == "orphan":
+        branch_sg("orphan", False)                  # a subgraph that no operator refers to
+        t = _ms_segment(net, rng, t, "Main", False, sc, zp)
+    elif kind == "call":
+        cs = branch_sg("callee", rng.random() < 0.5)
+        y = fm(net, "call_out")
+        ctl(net, "CALL", [t], [y], Subgraph=cs)
+        t = y
+    if t is not before and kind != "orphan" and rng.random() < 0.5:
         # a tensor of main that is produced before and read after the control-flow operator (alive across the callees)
         t = elementwise(net, rng, rng.choice(["ADD", "MUL"]), t, before, out_shape=shape)
         t.scale, t.zp = sc, zp
@@ -1364,7 +1421,7 @@ def fam_multi_subgraph(rng, kind=None):
 
 FAMILIES = {
     "conv_chain": fam_conv_chain, "conv_chain_big": lambda rng: fam_conv_chain(rng, big=True), "single": fam_single_op,
-    "diamond": fam_diamond, "mixed_cpu": fam_mixed_cpu, "unsupported": fam_unsupported, "lut_heavy": fam_lut_heavy, "lut_mixed": fam_lut_mixed, "siamese": fam_siamese, "multi_input": fam_multi_input, "deep_chain": fam_deep_chain, "pow2_rescale": fam_pow2_rescale, "narrowing_chain": fam_narrowing_chain, "weights_heavy": fam_weights_heavy, "ew_dag": fam_ew_dag, "multi_custom": fam_multi_custom,
+    "diamond": fam_diamond, "mixed_cpu": fam_mixed_cpu, "unsupported": fam_unsupported, "lut_heavy": fam_lut_heavy, "lut_mixed": fam_lut_mixed, "siamese": fam_siamese, "multi_input": fam_multi_input, "deep_chain": fam_deep_chain, "pow2_rescale": fam_pow2_rescale, "narrowing_chain": fam_narrowing_chain, "one_channel_tail": fam_one_channel_tail, "weights_heavy": fam_weights_heavy, "ew_dag": fam_ew_dag, "multi_custom": fam_multi_custom,
 }
 FAMILIES["multi_subgraph"] = fam_multi_subgraph
 
